@@ -24,7 +24,7 @@ ASSUMPTIONS = [
     'rtol 1e-10 on altitude/gravity/scale height against the pure-python reference',
 ]
 RULE = RULE + ' ' + 'Also: levels 1-8 ulp apart, array profiles read from text files (own column, header rows, unit, top-first with reverse=True), temperatures as an integer array; cases stratified by part.'
-REQUIRED = {'temperatures:integer-array': 0.08, 'array:from-file': 0.008, 'array:from-file,top-first': 0.008, 'levels:ulp-spaced': 0.025, 'part:function': 0.2, 'part:model-simple': 0.2, 'part:model-array': 0.08, 'layers:1': 0.01}
+REQUIRED = {'rejected-point-then-valid': 0.05, 'temperatures:integer-array': 0.08, 'array:from-file': 0.008, 'array:from-file,top-first': 0.008, 'levels:ulp-spaced': 0.025, 'part:function': 0.2, 'part:model-simple': 0.2, 'part:model-array': 0.08, 'layers:1': 0.01}
 
 MJUP = 1.2668653e17 / 6.6743e-11
 RJUP = 71492000.0
@@ -286,7 +286,51 @@ def check_model(out, c):
                 if np.shape(a) != np.shape(b) or not close(a, b, rtol=1e-9, atol=1e-12 * abs(zr[-1])):
                     out.fail('re-ranged-hydro@' + name, 'after the range change: max rel %.2e' % (maxrel(a, b) if np.shape(a) == np.shape(b) else -1))
 
-    planet_changed(out, c, W, m, w, nl)
+    fm_, fr_ = planet_changed(out, c, W, m, w, nl) or (1.0, 1.0)
+    rejected_point(out, c, W, m, w, nl, fm_, fr_)
+
+
+def rejected_point(out, c, W, m, w, nl, fm, fr):
+    """history: a sampled point that is refused (an abundance above one together with another temperature; the caller
+    catches the invalid-model error), then the abundance is put back and the model evaluated: the structure is that of
+    the parameters now in force"""
+    from taurex.exceptions import InvalidModelException
+    if nl < 2 or 'T' not in m.fittingParameters:
+        return
+    mols = [g['mol'] for g in w['gases'] if g.get('table') is not None and g.get('logtop') is None and not g.get('zero')
+            and g['mol'] in m.fittingParameters]
+    if not mols:
+        return
+    keep = float(m[mols[0]])
+    m['T'] = float(m['T']) * 1.31
+    m[mols[0]] = 1.5
+    try:
+        with np.errstate(all='ignore'):
+            m.model()
+        return                                  # accepted: C10's business, nothing to learn here
+    except InvalidModelException:
+        out.cls('rejected-point-then-valid')
+    except Exception:
+        return
+    m[mols[0]] = keep
+    with np.errstate(all='ignore'):
+        cut(out, 'model@after-rejected-point', m.model)
+    Pl = np.asarray(m.pressure.pressure_profile_levels, dtype=float)
+    T = np.asarray(m.temperatureProfile, dtype=float)
+    mu = np.asarray(m.chemistry.muProfile, dtype=float)
+    if Pl.shape != (nl + 1,) or not np.all(np.diff(Pl) < 0) or not np.all(np.isfinite(np.asarray(m.altitude_boundaries, dtype=float))):
+        return
+    M = W.g_surface * (w['radius'] * RJUP) ** 2 / ref.G_NEWTON * fm
+    R = w['radius'] * RJUP * fr
+    zr, Hr, gr, dzr = hydro_reference(M, R, T, Pl, mu)
+    if not np.all(np.isfinite(zr)) or zr[-1] > 1e3 * R:
+        return
+    out.applies('after-rejected-point-hydro')
+    for name, a, b in (('altitude_boundaries', m.altitude_boundaries, zr), ('deltaz', m.deltaz, dzr),
+                       ('gravity_profile', m.gravity_profile, gr), ('scaleheight_profile', m.scaleheight_profile, Hr)):
+        if np.shape(a) != np.shape(b) or not close(a, b, rtol=1e-9, atol=1e-12 * abs(zr[-1])):
+            out.fail('after-rejected-point-hydro@' + name, 'after a refused point and the abundance put back: max rel %.2e'
+                     % (maxrel(a, b) if np.shape(a) == np.shape(b) else -1))
 
 
 def planet_changed(out, c, W, m, w, nl):
@@ -314,6 +358,7 @@ def planet_changed(out, c, W, m, w, nl):
         if np.shape(a) != np.shape(b) or not close(a, b, rtol=1e-9, atol=1e-12 * abs(zr[-1])):
             out.fail('planet-changed-hydro@' + name, 'after mass x%.2f radius x%.2f: max rel %.2e'
                      % (fm, fr, maxrel(a, b) if np.shape(a) == np.shape(b) else -1))
+    return fm, fr
 
 
 def check(case):
